@@ -112,6 +112,12 @@ claim("C11",
       "Coq proof (validator = declarative semantics by mutual induction over schema values; regex and date-format lemmas) + schemas regenerated by the translator + extracted validator vs libxml2 differential run + XSD oracle on every written file",
       "DESIGN.md 3 C11")
 
+claim("C20",
+      "Theorems over a two-thread transition system of cli/update.py and the result callbacks, for every server behaviour (answer time incl. never, RequestException / other exception / HTTP status / non-JSON / non-dict / missing, null, non-string, unparsable or valid tag_name), every command (output chunks, work, normal return or any non-returning end) and EVERY schedule: stdout is the command's output plus at most one notice, shown only for a strictly newer final release received before the join ended; the wait is <= join_timeout (regenerated constant, obligation = 1 s in both groups; daemon thread; strict comparison); no deadlock, no infinite run, every maximal run ends in Exit; the main thread never raises. Exit status: REFUTED at full strength for the code as it stands (known finding: abort 134 at interpreter shutdown while a dying, unjoined checker thread holds stderr), proved outside the Coq-defined region and as 'the command's status or that abort'. Tied to the code by subprocess runs of both click groups with a scripted requests.get (37 fixed + seeded random behaviours x 13 commands x installed versions) compared with the model's vm_compute prediction (generated cases.v) and with a reference run (same exit, same stdout plus one optional notice, wall-clock <= reference + 1 s + 1.5 s, process terminates).",
+      "PARTIAL by nature: the real scheduler, interpreter shutdown and wall-clock are sampled (1.5 s slack); click's rule 'result callback only after a normal return' and packaging's version parser enter as data of a configuration.",
+      "Coq invariant proof over reachable states of a two-thread transition system + translator constants + subprocess correspondence through vm_compute-evaluated cases + reference-run oracle",
+      "DESIGN.md 3 C20")
+
 PENDING = "check under construction (planned: proof + correspondence, see DESIGN.md section 3)"
 
 
